@@ -9,7 +9,8 @@ from graphql.language import OperationDefinitionNode
 
 from ..gen.data import make_resolver, make_value
 from ..gen.doc import DocGen
-from ..gen.schemas import rich
+from ..gen.schemas import rich, rich_is_type_of
+from ..mon import aharness
 from ..mon.aharness import Harness
 from ..mon.loop import Run, Scheduler, dfs_scripts
 from . import c02
@@ -90,14 +91,17 @@ def serial_monitor(log, root_keys, open_gate_labels_at):
     return problems, checked
 
 
-def one_schedule(schema, doc, variables, value_fn, seed, p_async, policy, script=None):
+def one_schedule(schema, doc, variables, value_fn, seed, p_async, policy, script=None, tof=False):
     rng = random.Random(seed)
     sched = Scheduler(rng, policy=policy, script=script)
     run = Run(sched)
-    hz = Harness(sched, value_fn, seed, p_async=p_async, schema=schema)
+    hz = Harness(sched, value_fn, seed, p_async=p_async, schema=schema, hide_typename=tof, p_type_async=0.5 if tof else 0.3)
+    aharness._current[0] = hz
 
     async def main():
-        r = execute(schema, doc, None, variable_values=variables, field_resolver=hz.resolver, type_resolver=hz.type_resolver)
+        # tof: values carry no __typename and no type resolver is given, so the default resolver has to ask the
+        # (synchronous or awaitable) is_type_of functions of the possible types
+        r = execute(schema, doc, None, variable_values=variables, field_resolver=hz.resolver, type_resolver=None if tof else hz.type_resolver)
         if hasattr(r, '__await__'):
             r = await r
         return r
@@ -115,6 +119,10 @@ def check_request(ctx, seed, k):
         if gs is not None:
             schema = gs
             ctx.count("requests_on_generated_schemas")
+    tof = seed % 7 == 5 and schema is rich()
+    if tof:
+        schema = rich_is_type_of(aharness.is_type_of_factory)
+        ctx.count("requests_resolved_through_is_type_of")
     g = DocGen(schema, rng, ops=('query', 'query', 'mutation') if schema.mutation_type else ('query',), max_depth=3)
     src = g.gen()
     try:
@@ -126,7 +134,12 @@ def check_request(ctx, seed, k):
     variables = g.variables()
     fault = [0.0, 0.08][seed % 2]
     value_fn = make_value(schema, seed, fault)
-    base = execute_sync(schema, doc, None, variable_values=variables, field_resolver=make_resolver(value_fn))
+    if tof:
+        hz0 = Harness(None, value_fn, seed, sync_only=True, hide_typename=True)
+        aharness._current[0] = hz0
+        base = execute_sync(schema, doc, None, variable_values=variables, field_resolver=hz0.resolver)
+    else:
+        base = execute_sync(schema, doc, None, variable_values=variables, field_resolver=make_resolver(value_fn))
     base_json = json.dumps(base.data, sort_keys=True)
     op = next(d for d in doc.definitions if isinstance(d, OperationDefinitionNode))
     is_mutation = op.operation.value == 'mutation'
@@ -240,7 +253,7 @@ def check_request(ctx, seed, k):
         s2 = seed * 100 + j
         case = {**case0, "schedule_seed": s2, "p_async": p_async, "policy": pol}
         ctx.case()
-        run, hz, sched, pending = one_schedule(schema, doc, variables, value_fn, s2, p_async, pol)
+        run, hz, sched, pending = one_schedule(schema, doc, variables, value_fn, s2, p_async, pol, tof=tof)
         try:
             judge.nbad = judge.nbad
             judge(run, hz, sched, pending, case)
@@ -251,7 +264,7 @@ def check_request(ctx, seed, k):
         # exhaustive orders when the run is small
         if j == 2 and 2 <= len(sched.trace) <= 5:
             def with_script(script, s2=s2, p_async=p_async):
-                run2, hz2, sched2, pend2 = one_schedule(schema, doc, variables, value_fn, s2, p_async, 'scripted', script)
+                run2, hz2, sched2, pend2 = one_schedule(schema, doc, variables, value_fn, s2, p_async, 'scripted', script, tof=tof)
                 try:
                     ctx.case()
                     judge(run2, hz2, sched2, pend2, {**case0, "schedule_seed": s2, "p_async": p_async, "policy": "scripted", "script": script})
